@@ -10,6 +10,7 @@ from the frames the real code encrypted); (4) oracle = the property on the real 
 import json, os
 from harness import common as C
 from harness.common import cbytes, cbool, clist, cpair, cstr
+from harness.props import pyfun_util
 
 PID = "C17"
 KEY_APS_DATA = "aps-data-request-secured-raises"
@@ -545,6 +546,11 @@ def run(ctx):
                        "key is 16 bytes (AES-128), frame counter < 2^32, lengths < 65536 for the injectivity statements",
                        "freshness theorems assume nwkAllFresh = True (the NWKIB default is False)"]
     proofs_ok, detail = ctx.check_proofs(lib_targets=["theories/Lib/Bytes.vo", "theories/Lib/Xor.vo", "theories/Lib/Aes.vo", "theories/Lib/Ccm.vo"])
+    # generateNonce / generateAuth / extractCiphertextPayload regenerated from the source and proved equal to the
+    # model (harness/translators/pyfun.py, theories/C17/{Gen,GenEq,PropertyGen}.v, design/PYTRANS.md)
+    gen = pyfun_util.check_generated(ctx, PID)
+    if not gen["ok"]:
+        proofs_ok, detail = False, (detail if not proofs_ok else str(gen["what"])) + gen["detail"]
     ctx.log("proofs:", proofs_ok, detail.splitlines()[0][:200])
     rng = ctx.rng
     nviol = 0
@@ -974,7 +980,7 @@ def run(ctx):
         {"tamper": tam_cases[0], "meta": {k: tam_meta[0][k] for k in ("kind", "src")}, "impl_status": r2["crypt"][0][0].get("status")} if tam_cases else {},
         {"nwk_history": hist_reqs[0], "impl": [{"up": [u["svc"] for u in s["up"]], "tables": s["tables"], "exc": s.get("exc")} for s in r2["nwk"][0]]} if hist_reqs else {},
     ]
-    ctx.cov["source_ties"] = [C.source_tie("whad/zigbee/crypto.py", 15, 48), C.source_tie("whad/zigbee/crypto.py", 51, 245),
+    ctx.cov["source_ties"] = ctx.cov.get("source_ties", []) + [C.source_tie("whad/zigbee/crypto.py", 15, 48), C.source_tie("whad/zigbee/crypto.py", 51, 245),
                               C.source_tie("whad/zigbee/stack/nwk/__init__.py", 1093, 1203),
                               C.source_tie("whad/zigbee/stack/nwk/security.py", 1, 36)]
     ctx.cov["correspondence"] = {"crypt_cases": len(crypt_terms), "crypt_bad": len(bad_c), "hash_cases": len(hk_terms) + len(hkk_terms),
